@@ -23,7 +23,7 @@ claim("C10", "NonEmpty obligations (dominating length guards, construction, prov
       STDNOTE + "Provenance rules (docs-key format, embedded asset tree shape) are re-verified from the sources on every run.",
       "DESIGN.md §3 E4, §4 C10")
 
-claim("C03", "dominating-guard facts with linear forms, struct-literal field provenance, comparator first-key enumeration, key-format/decoder table agreement, line-counter credit typestate",
+claim("C03", "dominating-guard facts with linear forms, struct-literal field provenance, comparator first-key enumeration, key-format/decoder table agreement, line-accounting invariant",
       "Decides for all inputs and thresholds: the Confidence stored in every license match was compared >= threshold by a dominating branch; the span guard equals EndTokenIndex-StartTokenIndex+1 > 0; Start/EndLine are the lines of exactly those tokens of this call's document; results are an order-preserving filter of a slice sorted with Confidence as primary descending key; (MatchType,Name,Variant) are decoded from the key that was scored and the key format agrees with its decoders; Copyright literals are well formed; the line counter advances at most once per rune with paired deferred increments. Does not decide Confidence <= 1.0.",
       STDNOTE,
       "DESIGN.md §3 E4, §4 C03")
@@ -43,9 +43,9 @@ claim("C16", "dominating-call fact on every append to the result + shape of the 
       STDNOTE,
       "DESIGN.md §4 C16")
 
-claim("C18", "table/exhaustiveness rules read from switch statements (style reachability, delimiter pairing for all 47 languages, sibling fallback agreement) + lexer consumption typestate and progress analysis on SSA + channel-close path rule",
+claim("C18", "table/exhaustiveness rules over the language tables (style reachability, delimiter pairing for all 47 languages, sibling fallback agreement) + lexer consumption typestate and progress analysis on SSA + channel-close path rule",
       "Decides: every comment style with delimiter rows is reachable from some language and vice versa; multi-line start/end delimiters are paired for every language; the two fallback tables agree; in lex no rune is consumed right after a delimiter without being examined (four (read, origin) pairs fail today and are known findings D8a/D8b - any other pair is a violation); every lexing loop consumes input or exits; the ChunkIterator producer closes its channel on all paths; raw strings have no escape. Agreement with a reference lexer on all strings and the chunk-grouping arithmetic are not decided.",
-      STDNOTE + "Tables are read from the AST with resolved constants; unsupported table shapes are reported as undecided (fail).",
+      STDNOTE + "Tables are read by conditional constant propagation over the SSA form (no repository code runs); a table function that is not a function of constants is reported as undecided (fail).",
       "DESIGN.md §3 E7,E8, §4 C18")
 
 claim("C20", "effect/ownership analysis per method with operands as shared memory + result freshness through the heap summary + structural pairing rule for setIndex + must-pass-through delegation rule",
@@ -73,11 +73,11 @@ claim("C01", "call-site agreement rules (tokenizer configuration, q/threshold si
       "Decides the structural necessary conditions of 'a verbatim copy is found whole at 1.0': same tokenizer configuration and dictionary on both sides; q derived from the one stored threshold and used on both sides; inclusive acceptance test; window carry-over and decoder window; span/line agreement." + THIN,
       STDNOTE, "DESIGN.md §4 C01")
 
-claim("C02", "argument/value-identity rules on the scoring pipeline (whole-document denominator, one diffRange partition, offsets applied to matching ends via linear forms), Confidence provenance, line-counter typestate",
+claim("C02", "argument/value-identity rules on the scoring pipeline (whole-document denominator, one diffRange partition, offsets applied to matching ends via linear forms), Confidence provenance, line-accounting invariant",
       "Decides: the diff is against the whole corpus document whose length is also the confidence denominator; the distance is scoreDiffs of exactly the retained range; trimmed word counts are textLength of the two outer parts and are applied to the start and end of the span; every reported Confidence is score's result; only a decoded newline advances the line counter." + THIN,
       STDNOTE, "DESIGN.md §4 C02")
 
-claim("C05", "lower-casing dataflow rule on every write into the word buffer (specialised to normalize=true), punctuation table rule, decoder window rule, line-counter typestate",
+claim("C05", "lower-casing dataflow rule on every write into the word buffer (specialised to normalize=true), punctuation table rule, decoder window rule, line-accounting invariant",
       "Decides: with normalisation on every rune/byte appended to a word buffer went through unicode.ToLower; every typographic dash maps to '-'; the decoder is not capped at the window (byte shifts cannot change a rune); only a decoded newline ends a line." + THIN,
       STDNOTE, "DESIGN.md §4 C05")
 
@@ -94,3 +94,31 @@ claim("C17", "substring/offset provenance rule in Tokenize (with guard facts for
       STDNOTE, "DESIGN.md §4 C17")
 
 na("C07", "quantifies over the numeric behaviour of the sliding-window density, offset clamping and error-margin fusion at document edges; no clause of it is visible in the shape of the code and any proxy would be a frozen fragment (DESIGN.md §4 C07)")
+
+
+# Rules added after the seeding rounds (DESIGN.md 10.2, 10.6): (technique addition, level-text addition)
+ADDED = {
+ "C01": ("", " Also: the run detector is called with the search set's own clamped q."),
+ "C02": ("line-accounting invariant over enumerated iteration paths (linear forms)", " Line accounting: on every path through one iteration of the tokenizer's rune loop the line counter plus the held-back line breaks advance by exactly one when the decoded rune is a newline and not otherwise, and no held line break survives the hand-over of a line's words to the document (so StartLine/EndLine are the lines the words stand on)."),
+ "C03": ("line-accounting invariant over enumerated iteration paths, loop-nesting rule for token production", " The line-to-tokens conversion emits at most one token per buffered word (token indices stay below the number of input words); the line counter obeys the accounting invariant described under C02."),
+ "C04": ("must-pass-through rule for AddContent", " AddContent reaches addDocument on every path; an explicitly set go-diff DiffTimeout is reported like the default one."),
+ "C05": ("scan-position rule", " The scan position moves only by the size of the decoded rune (no byte is stepped over without being decoded and dispatched)."),
+ "C06": ("dominance rule for the notice patterns, key-provenance rule for the spelling table", " The notice patterns are consulted on every path that reaches the token loop; the spelling table is looked up with the cleaned word; integer tokenizer state survives buffer refills too."),
+ "C08": ("scan-position rule", " The scan position moves only by the size of the decoded rune; all tokenizer state (flags, line, held line breaks) is carried across buffer refills."),
+ "C10": ("division-guard facts, loop-carried string accumulation rule", " Every integer division by a run-time value is dominated by a non-zero test; no loop extends a string by concatenation (quadratic time on a very long line); the run detector gets the clamped q."),
+ "C11": ("case-folding rule for word-table lookups, result-not-trimmed rule, must-derive-from rule for the interned word", " Lower-case word tables consulted by the token clean-up are consulted with a case-folded key or only when normalising (Normalize keeps the capital of a word's first letter); the result of Normalize is not trimmed at its beginning; the interned word derives from html.UnescapeString on every path; the first token is written only after the end-of-line test."),
+ "C12": ("walk-callback path rules, single-writer rule for the corpus map", " The walk callback tests the walk error before using the FileInfo and returns SkipDir only for directories; the corpus map is assigned only by the constructor."),
+ "C13": ("def-use rule for the raw text, comparator strictness by finite relation enumeration, occurrence-shortcut path rule", " A function that normalises its text parameter uses the raw parameter for nothing else; result lists are sorted by a strict order on exact comparisons with Confidence first; the exact-occurrence shortcut can assign first and last token on one path."),
+ "C14": ("publish-after-initialise ordering rule", " A known value is stored in the shared map only after its fields are initialised."),
+ "C15": ("loop-scope rule for the decoded search set, order rule for the trailing-text cut", " Each archive entry is decoded into a search set variable declared inside the loop over the entries; the trailing text is cut off before any element of Normalizers is applied."),
+ "C17": ("SSA shape rule for TargetRange", " Tokens may also be cut from the input in one piece (Text: s[a:b], Offset: a, b a scan position or len(s)); a candidate's byte range runs from the Offset of token TargetStart to Offset+len(Text) in bytes of token TargetEnd-1, both taken from the same token."),
+ "C18": ("tables read by conditional constant propagation over SSA (one declared Language constant at a time)", " The lexed text is the input plus at most a terminating newline; string contents are recorded as a comment only behind a triple-quote match; every cycle of lex passes an end-of-input test."),
+ "C19": ("no-early-exit loop rule, value-identity rule for the bytes matched", " The loop over the library's matches has no early exit; the bytes given to Match are the bytes this call read from the named file; literals and record sites are followed through unexported helpers."),
+ "C20": ("both-inclusions rule for Equal", " Equal returns true only behind both inclusions (equal map sizes and one containment loop, or containment loops in both directions)."),
+}
+for _id, (_t, _l) in ADDED.items():
+    if _id in CLAIMED:
+        t, text, note, ref = CLAIMED[_id]
+        if _t:
+            t = t + " + " + _t
+        CLAIMED[_id] = (t, text + _l, note, ref)
